@@ -59,6 +59,10 @@ NASTY = [
 
 
 # -------------------------------------------------------------------------------- one observed run (worker side)
+class RunTimeout(BaseException):
+    """The run did not end within the time the harness gives it."""
+
+
 def observed_run(roots: List[str], out: str, docformat: str, W: bool, timeout: int = 120) -> Dict[str, Any]:
     """Run the real driver.main in this process under run-time wrappers; returns the event trace and observations."""
     import io
@@ -113,10 +117,11 @@ def observed_run(roots: List[str], out: str, docformat: str, W: bool, timeout: i
     res: Dict[str, Any] = {"exception": "", "code": None}
 
     def on_alarm(signum, frame):
-        raise TimeoutError("run exceeded the harness timeout")
+        # not an Exception: the broad handlers around docstring parsing must not swallow it; the timer keeps firing for the same reason
+        raise RunTimeout("run exceeded the harness timeout")
 
     old = signal.signal(signal.SIGALRM, on_alarm)
-    signal.alarm(timeout)
+    signal.setitimer(signal.ITIMER_REAL, timeout, 2)
     args = [f"--html-output={out}", f"--docformat={docformat}", "--project-name=proj", "--quiet", "--quiet", *roots]
     if W:
         args.insert(0, "--warnings-as-errors")
@@ -131,7 +136,7 @@ def observed_run(roots: List[str], out: str, docformat: str, W: bool, timeout: i
                 res["exception"] = f"{type(e).__name__}: {e}"
                 res["traceback"] = traceback.format_exc()[-1500:]
     finally:
-        signal.alarm(0)
+        signal.setitimer(signal.ITIMER_REAL, 0)
         signal.signal(signal.SIGALRM, old)
         model.System.processModule, model.System.postProcess, model.SystemBuilder.buildModules = o_pm, o_pp, o_bm
         tw.TemplateWriter.writeSummaryPages, tw.TemplateWriter._writeDocsForOne = o_sum, o_one
@@ -310,7 +315,7 @@ def random_jobs(rng: random.Random, count: int) -> List[Dict[str, Any]]:
 def judge(ctx: Ctx, r: Dict[str, Any], origin: str) -> List[str]:
     bad: List[str] = []
     if r["exception"]:
-        bad.append("NoUncaughtException" if "TimeoutError" not in r["exception"] else "Terminates")
+        bad.append("NoUncaughtException" if "RunTimeout" not in r["exception"] else "Terminates")
     bad += [p.split(":")[0] for p in r["problems"]]
     if not r["exception"] and r["code"] is not None:
         last = r["ev"][-1]
